@@ -5,6 +5,7 @@ mod hist;
 mod layouts;
 mod props_buf;
 mod props_c04;
+mod props_file;
 mod props_grid;
 mod props_hist;
 mod props_sched;
@@ -54,6 +55,8 @@ fn main() {
         Some("hist") => hist::replay(case),
         Some("sched") => sched::replay(case),
         Some("buf") => props_buf::replay(case),
+        Some("c09") | Some("c09-ro") | Some("c05") | Some("c06") | Some("c06-unsync") => props_file::replay(case),
+        Some("c15") | Some("c16") | Some("c16-sbs") | Some("c17-clear") | Some("c18") | Some("c18-ro") | Some("c19") => props_grid::replay(case),
         _ => {
           eprintln!("machinery: unknown engine in replay file");
           2
@@ -88,6 +91,9 @@ fn dispatch(id: &str, tier: Tier) -> i32 {
     "C01" | "C03" | "C08" | "C10" | "C11" | "C20" => props_hist::check(id, tier),
     "C02" | "C07" | "C12" | "C13" => props_sched::check(id, tier),
     "C04" => props_c04::check(tier),
+    "C05" => props_file::check_c05(tier),
+    "C06" => props_file::check_c06(tier),
+    "C09" => props_file::check_c09(tier),
     "C14" => props_buf::check(tier),
     "C15" => props_grid::check_c15(tier),
     "C16" => props_grid::check_c16(tier),
